@@ -9,3 +9,5 @@ import SigHook.Gen.Details
 import SigHook.Gen.Cause
 import SigHook.Gen.Orderings
 import SigHook.Props.C05
+import SigHook.Model.Default
+import SigHook.Props.C16
